@@ -13,11 +13,17 @@
 package c14
 
 import (
+	"bytes"
+	"context"
+	"encoding/json"
 	"fmt"
 	"io"
 	"math/rand"
 	"os"
+	"os/exec"
 	"path/filepath"
+	"strconv"
+	"strings"
 	"sync"
 	"time"
 
@@ -29,7 +35,153 @@ import (
 
 func init() {
 	core.Register(&core.Check{Prop: "C14", Level: "model_checking", Run: run})
+	core.RegisterChild("failedcopy", failedCopyChild)
 }
+
+// failedCopyChild runs, in a process of its own (a source that is damaged by a
+// failed backup may take the whole process down): batches, a backup whose
+// destination refuses the second file, then searches, one more batch and a full
+// observation of the source.  args: <base dir> <records.json> <seed>
+func failedCopyChild(args []string) int {
+	if len(args) < 3 {
+		return 2
+	}
+	base, outFile := args[0], args[1]
+	seed, _ := strconv.ParseInt(args[2], 10, 64)
+	rng := rand.New(rand.NewSource(seed))
+	wl := sx.RandomWorkload(rng, 6, 1, seed%2 == 0, nil)
+	r, err := sx.Start(filepath.Join(base, "idx"), wl, seed, 0)
+	if err != nil {
+		fmt.Fprintln(os.Stderr, "HARNESS-ERROR: start:", err)
+		return 2
+	}
+	if err := r.RunWriters(); err != nil {
+		fmt.Fprintln(os.Stderr, "HARNESS-ERROR: batches:", err)
+		return 2
+	}
+	if seed%3 != 0 {
+		r.Quiesce(20 * time.Second) // idle source: the copied snapshot is still the root
+	}
+	res := map[string]any{"copy_failed": false}
+	fd := &failingDir{base: filepath.Join(base, "copy-fail"), failAt: 2}
+	if err := r.Idx.(bleve.IndexCopyable).CopyTo(fd); err != nil {
+		res["copy_failed"] = true
+		for k := 0; k < 3; k++ {
+			if _, err := sx.SearchContent(r.Idx); err != nil {
+				res["search_err"] = err.Error()
+			}
+		}
+		if _, err := r.Submit(sx.BatchSpec{W: 1, Puts: []string{"a"}, Dels: []string{}}); err != nil {
+			res["batch_err"] = err.Error()
+		}
+		r.Quiesce(20 * time.Second)
+		if _, err := sx.SearchContent(r.Idx); err != nil {
+			res["search_err"] = err.Error()
+		}
+	}
+	if cont, err := sx.ObserveContent(r.Idx); err == nil {
+		r.Rec.Emit("SourceAfter", map[string]any{"docs": cont.Docs, "seq": cont.Seq, "count": cont.Count})
+	} else {
+		res["observe_err"] = err.Error()
+	}
+	if err := r.Close(); err != nil {
+		res["close_err"] = err.Error()
+	}
+	res["records"] = sx.CrashRecords(r.Rec.Events())
+	b, _ := json.Marshal(res)
+	if err := os.WriteFile(outFile, b, 0o644); err != nil {
+		return 2
+	}
+	return 0
+}
+
+// failedCopyRuns executes the failed-backup scenario in child processes.  A child
+// that dies (fault, panic) after the failed backup is the source being affected.
+func failedCopyRuns(c *core.Ctx) ([]*outcome, bool) {
+	var outs []*outcome
+	healthy := true
+	for k := 0; k < c.Pick(3, 9); k++ {
+		seed := c.Seed*10 + int64(k)
+		name := fmt.Sprintf("failed-copy-child-%d", k)
+		crashes := 0
+		var firstLine string
+		var res map[string]any
+		for attempt := 0; attempt < 2; attempt++ {
+			base := c.TempDir("c14f")
+			outFile := filepath.Join(base, "records.json")
+			ctx, cancel := context.WithTimeout(context.Background(), 120*time.Second)
+			cmd := exec.CommandContext(ctx, core.SelfExe(), "child:failedcopy", base, outFile, strconv.FormatInt(seed, 10))
+			var stderr bytes.Buffer
+			cmd.Stderr = &stderr
+			err := cmd.Run()
+			timedOut := ctx.Err() == context.DeadlineExceeded
+			cancel()
+			if err == nil {
+				if b, e := os.ReadFile(outFile); e == nil {
+					_ = json.Unmarshal(b, &res)
+				}
+				os.RemoveAll(base)
+				break
+			}
+			os.RemoveAll(base)
+			txt := stderr.String()
+			if timedOut || strings.Contains(txt, "HARNESS-ERROR:") {
+				c.Inconclusive(fmt.Sprintf("%s: child did not run: %v %s", name, err, firstLineOf(txt)))
+				return outs, false
+			}
+			if strings.Contains(txt, "fatal error") || strings.Contains(txt, "panic:") || strings.Contains(txt, "SIGSEGV") {
+				crashes++
+				if firstLine == "" {
+					firstLine = firstLineOf(txt)
+				}
+				continue
+			}
+			c.Inconclusive(fmt.Sprintf("%s: child failed for an unknown reason: %v %s", name, err, firstLineOf(txt)))
+			return outs, false
+		}
+		c.Eval(1)
+		if crashes == 2 {
+			healthy = false
+			c.Violation("c14/source-broken-after-failed-copy", fmt.Sprintf("%s: the process using the source index crashed after a backup failed half way (destination refused its second file), twice in two runs: %s", name, firstLine),
+				map[string]any{"scenario": name, "seed": seed})
+			continue
+		}
+		if crashes == 1 {
+			c.Inconclusive(fmt.Sprintf("%s: child crashed once, not on the second run: %s", name, firstLine))
+			return outs, false
+		}
+		if res == nil {
+			continue
+		}
+		for _, k := range []string{"search_err", "batch_err", "observe_err", "close_err"} {
+			if e, ok := res[k].(string); ok && e != "" {
+				healthy = false
+				c.Violation("c14/source-broken-after-failed-copy", fmt.Sprintf("%s: %s on the source after a failed CopyTo: %s", name, k, e), map[string]any{"scenario": name, "seed": seed})
+			}
+		}
+		if recs, ok := res["records"].([]any); ok {
+			outs = append(outs, &outcome{Name: name, Records: recs})
+		}
+		if f, _ := res["copy_failed"].(bool); f {
+			c.AddExtra("failed_backups_followed_by_use_of_the_source", 1)
+		}
+	}
+	return outs, healthy
+}
+
+func firstLineOf(s string) string {
+	for _, l := range strings.Split(s, "\n") {
+		if strings.TrimSpace(l) != "" {
+			if len(l) > 200 {
+				l = l[:200]
+			}
+			return l
+		}
+	}
+	return ""
+}
+
+var failedCopyInProcess = true
 
 type outcome struct {
 	Name    string
@@ -115,27 +267,30 @@ func runOne(c *core.Ctx, name string, wl sx.Workload, seed int64) (*outcome, err
 		out.Copies++
 	}
 	// a backup that FAILS half way (destination refuses the second file) must
-	// leave the source untouched as well
-	func() {
-		defer func() {
-			if p := recover(); p != nil {
-				c.Violation("c14/source-broken-after-failed-copy", fmt.Sprintf("%s: source index panicked after a failed CopyTo: %v", name, p), map[string]any{"scenario": name})
+	// leave the source untouched as well (in-process only when the child-process
+	// runs of the same scenario were healthy: a damaged source can kill the process)
+	if failedCopyInProcess {
+		func() {
+			defer func() {
+				if p := recover(); p != nil {
+					c.Violation("c14/source-broken-after-failed-copy", fmt.Sprintf("%s: source index panicked after a failed CopyTo: %v", name, p), map[string]any{"scenario": name})
+				}
+			}()
+			fd := &failingDir{base: filepath.Join(base, "copy-fail"), failAt: 2}
+			if err := r.Idx.(bleve.IndexCopyable).CopyTo(fd); err == nil {
+				return // nothing failed (fewer than 2 files): not this scenario
+			}
+			for k := 0; k < 3; k++ {
+				if _, err := sx.SearchContent(r.Idx); err != nil {
+					c.Violation("c14/source-broken-after-failed-copy", fmt.Sprintf("%s: search on the source failed after a failed CopyTo: %v", name, err), map[string]any{"scenario": name})
+					return
+				}
+			}
+			if _, err := r.Submit(sx.BatchSpec{W: 1, Puts: []string{"a"}, Dels: []string{}}); err != nil {
+				c.Violation("c14/source-broken-after-failed-copy", fmt.Sprintf("%s: batch on the source failed after a failed CopyTo: %v", name, err), map[string]any{"scenario": name})
 			}
 		}()
-		fd := &failingDir{base: filepath.Join(base, "copy-fail"), failAt: 2}
-		if err := r.Idx.(bleve.IndexCopyable).CopyTo(fd); err == nil {
-			return // nothing failed (fewer than 2 files): not this scenario
-		}
-		for k := 0; k < 3; k++ {
-			if _, err := sx.SearchContent(r.Idx); err != nil {
-				c.Violation("c14/source-broken-after-failed-copy", fmt.Sprintf("%s: search on the source failed after a failed CopyTo: %v", name, err), map[string]any{"scenario": name})
-				return
-			}
-		}
-		if _, err := r.Submit(sx.BatchSpec{W: 1, Puts: []string{"a"}, Dels: []string{}}); err != nil {
-			c.Violation("c14/source-broken-after-failed-copy", fmt.Sprintf("%s: batch on the source failed after a failed CopyTo: %v", name, err), map[string]any{"scenario": name})
-		}
-	}()
+	}
 	// the source is unaffected
 	if cont, err := sx.ObserveContent(r.Idx); err == nil {
 		r.Rec.Emit("SourceAfter", map[string]any{"docs": cont.Docs, "seq": cont.Seq, "count": cont.Count})
@@ -186,7 +341,8 @@ func run(c *core.Ctx) error {
 		return nil
 	}
 	rng := rand.New(rand.NewSource(c.Seed * 31))
-	var outs []*outcome
+	outs, healthy := failedCopyRuns(c)
+	failedCopyInProcess = healthy
 	n := c.Pick(3, 24)
 	for i := 0; i < n; i++ {
 		var kv map[string]interface{}
